@@ -75,7 +75,7 @@ struct World {
     uint32_t quantum_left = 0;
     std::string dl_info;
     bool abandon = false;
-    uint64_t max_candidates = 4000000;
+    uint64_t max_candidates = 4000000; int64_t last_now = 0; uint64_t cand_at_last_advance = 0;
 };
 World W;
 std::vector<uint8_t *> stack_pool;
@@ -215,6 +215,7 @@ void reset(uint64_t run_seed, uint64_t fill_key) {
     Rng e = rng_derive(run_seed, "epoch");
     W.epoch = 1600000000LL * 1000000000LL + (int64_t) e.below(100000000ULL) * 1000000000LL + (int64_t) e.below(1000000000ULL);
     W.now = W.epoch; W.rt_skew = 0;
+    W.last_now = W.now; W.cand_at_last_advance = 0;
     W.cur = -1; W.candidates = W.switches = 0; W.seq = 0; W.hash = 0; W.shash = 0;
     W.ev.clear(); W.dec.clear(); W.replay = nullptr; W.dpos = 0; W.status = RUN_OK; W.next_task = -1;
     W.pol = Policy(); W.faults = FaultCfg(); W.pct_points.clear(); W.quantum_left = 0; W.dl_info.clear(); W.abandon = false;
@@ -339,7 +340,9 @@ void yield_point(int kind) {
     if (W.cur < 0) return;
     Task *t = W.tasks[W.cur];
     ++W.candidates; ++t->my_candidates;
-    if (W.candidates > W.max_candidates) abandon_run(RUN_LIVELOCK);
+    // no progress: spinning without virtual time advancing, or still running after 12 simulated hours, or an absurd number of steps
+    if (W.now != W.last_now) { W.last_now = W.now; W.cand_at_last_advance = W.candidates; }
+    if (W.candidates - W.cand_at_last_advance > 2000000 || W.now - W.epoch > 12LL * 3600 * 1000000000LL || W.candidates > 60000000) abandon_run(RUN_LIVELOCK);
     if (!W.faults.stalls.empty() || !W.faults.jumps.empty()) apply_candidate_faults(t);
     wake_sleepers();
     std::vector<int> list;
